@@ -1,11 +1,168 @@
-/- BDS 6,0 — crates/rs1090/src/decode/bds/bds60.rs   (STUB: not modelled yet) -/
+/-
+BDS 6,0 heading and speed report — crates/rs1090/src/decode/bds/bds60.rs
+
+`HeadingAndSpeedReport` (56 bits, `#[serde(tag = "bds", rename = "60")]`), every field
+`skip_serializing_if = "Option::is_none"`.
+
+  1+1+10  magnetic_heading            read_heading      "heading"  Option<f64> v·90/512 (+360 if < 0)
+  1+10    indicated_airspeed          read_ias          "IAS"      Option<u16> 0 or > 500 ⇒ Err
+  1+10    mach_number                 read_mach(ias)    "Mach"     Option<f64> value·2.048/512;
+                                      0 or > 1 ⇒ Err; with IAS present:
+                                      IAS > 250 ∧ Mach < 0.4 ⇒ Err;  IAS < 150 ∧ Mach > 0.5 ⇒ Err
+  1+1+9   barometric_altitude_rate    read_vertical     "vrate_barometric"  Option<i16>
+  1+1+9   inertial_vertical_velocity  read_vertical     "vrate_inertial"    Option<i16>
+                                      value ∈ {0, 511} ⇒ Some(0) whatever the sign;
+                                      else ±32·…, |rate| > 6000 ⇒ Err
+
+Floating point.  Heading is exact in f64.  `mach = value as f64 * 2.048 / 512.` is *not* exact:
+the literal 2.048 is the double 0x1.0624dd2f1a9fcp+1 and the product is rounded.  The three
+comparisons `mach > 1.`, `mach < 0.4`, `mach > 0.5` are modelled by integer thresholds on the
+10-bit code (`machGt1`, `machLt04`, `machGt05`); `F64` below evaluates the same comparisons with
+IEEE-754 round-to-nearest-even arithmetic done on integers, and the two agree on all 1024 codes
+(theorem `F64.thresholds_agree` at the end of the file, a complete kernel enumeration; the
+exhaustive Mach sweep of the correspondence harness checks the same against the real code).
+The reported Mach value is the exact rational value·0.004 (the double differs by < 2 ulp).
+-/
 import Rs1090.Model.Decode.Common
 namespace Rs1090.Model.Bds60
 open Rs1090 Rs1090.Model
 
-/-- STUB -/
-def modelled : Bool := false
+def modelled : Bool := true
 
-def read : R SerFields := R.fail .other
+/-- `i16::abs` (overflow-checked: `i16::MIN.abs()` panics) -/
+def absS16 (x : Int) : Outcome Int :=
+  if x == -32768 then .panic .negOverflow else .ok (Int.ofNat x.natAbs)
+
+/-- signed code: `value as i16 - half` when the sign bit is set (i16, overflow-checked) -/
+def signed (half : Int) (sign value : Nat) : Outcome Int :=
+  if sign == 1 then subS 16 (value : Int) half else .ok (value : Int)
+
+/-- numerator over 512 of `v * 90 / 512`, with `+ 360` when negative -/
+def angleNum (v : Int) : Int :=
+  if v < 0 then v * 90 + 360 * 512 else v * 90
+
+/-- `read_heading`: numerator over 512 of the magnetic heading in degrees -/
+def heading (status : Bool) (sign value : Nat) : Outcome (Option Int) :=
+  if !status then
+    (if sign != 0 || value != 0 then .err .assertion else .ok none)
+  else do
+    let v ← signed 1024 sign value
+    .ok (some (angleNum v))
+
+/-- `read_ias`: knots -/
+def ias (status : Bool) (value : Nat) : Outcome (Option Nat) :=
+  if !status then
+    (if value != 0 then .err .assertion else .ok none)
+  else if value == 0 || value > 500 then .err .assertion
+  else .ok (some value)
+
+/-! ### Mach: the float comparisons as integer thresholds on the code -/
+
+/-- `mach == 0.` -/
+def machEq0 (value : Nat) : Bool := value == 0
+/-- `mach > 1.`  (250·2.048/512 rounds to exactly 1.0) -/
+def machGt1 (value : Nat) : Bool := value > 250
+/-- `mach < 0.4`  (100·2.048/512 rounds to exactly the double 0.4) -/
+def machLt04 (value : Nat) : Bool := value < 100
+/-- `mach > 0.5`  (125·2.048/512 rounds to exactly 0.5) -/
+def machGt05 (value : Nat) : Bool := value > 125
+
+/-- `read_mach`: the accepted code itself; Mach = code · 2.048 / 512 = code / 250 -/
+def mach (iasV : Option Nat) (status : Bool) (value : Nat) : Outcome (Option Nat) :=
+  if !status then
+    (if value != 0 then .err .assertion else .ok none)
+  else if machEq0 value || machGt1 value then .err .assertion
+  else
+    match iasV with
+    | some i =>
+      if i > 250 && machLt04 value then .err .assertion
+      else if i < 150 && machGt05 value then .err .assertion
+      else .ok (some value)
+    | none => .ok (some value)
+
+/-- `read_vertical`: ft/min (i16, overflow-checked) -/
+def vertical (status : Bool) (sign value : Nat) : Outcome (Option Int) :=
+  if !status then
+    (if sign != 0 || value != 0 then .err .assertion else .ok none)
+  else if value == 0 || value == 511 then .ok (some 0)
+  else do
+    let v ← if sign == 1 then do
+              let d ← subS 16 (value : Int) 512
+              mulS 16 d 32
+            else mulS 16 (value : Int) 32
+    let a ← absS16 v
+    if a > 6000 then .err .assertion else .ok (some v)
+
+def readVertical : R (Option Int) := do
+  let status ← flag
+  let sign ← bits 1
+  let value ← bits 9
+  R.lift (vertical status sign value)
+
+def read : R SerFields := do
+  let hStatus ← flag
+  let hSign ← bits 1
+  let hValue ← bits 10
+  let hdg ← R.lift (heading hStatus hSign hValue)
+  let iStatus ← flag
+  let iValue ← bits 10
+  let iasV ← R.lift (ias iStatus iValue)
+  let mStatus ← flag
+  let mValue ← bits 10
+  let m ← R.lift (mach iasV mStatus mValue)
+  let baro ← readVertical
+  let inertial ← readVertical
+  pure <| .ok [
+    fld (key! "bds") (.lit (key! "60")),
+    skipNone (key! "heading") (hdg.map fun n => jrat n 512),
+    skipNone (key! "IAS") (iasV.map jnat),
+    skipNone (key! "Mach") (m.map fun v => jrat (v * 2048) 512000),
+    skipNone (key! "vrate_barometric") (baro.map jint),
+    skipNone (key! "vrate_inertial") (inertial.map jint) ]
+
+/-! ### Reference IEEE-754 semantics of the Mach comparisons (integers only)
+
+A positive double is `m · 2^e` with `m < 2^53`.  `value as f64 * 2.048` is the exact product
+`value · C / 2^49` (`C / 2^49` = the double nearest to 2.048) rounded to 53 significant bits,
+ties to even; `/ 512.` is exact (no underflow).  Not used by `read`; it documents why the integer
+thresholds above are the float comparisons. -/
+namespace F64
+
+/-- numerator of the double literal `2.048` over `2^49` -/
+def C2048 : Nat := 1152921504606847
+
+/-- round a positive integer to 53 significant bits, ties to even (result still an integer) -/
+def round53 (n : Nat) : Nat :=
+  let len := if n == 0 then 0 else Nat.log2 n + 1
+  if len ≤ 53 then n else
+    let s := len - 53
+    let q := n >>> s
+    let r := n % 2 ^ s
+    let half := 2 ^ (s - 1)
+    let q' := if r > half || (r == half && q % 2 == 1) then q + 1 else q
+    q' * 2 ^ s
+
+/-- `value as f64 * 2.048 / 512.` as a numerator over `2^58` -/
+def machNum (value : Nat) : Nat := round53 (value * C2048)
+
+def machEq0 (value : Nat) : Bool := machNum value == 0
+/-- `> 1.0 = 2^58 / 2^58` -/
+def machGt1 (value : Nat) : Bool := machNum value > 2 ^ 58
+/-- `< 0.4`, the double 0x1.999999999999ap-2 = 0x1999999999999a / 2^54 -/
+def machLt04 (value : Nat) : Bool := machNum value < 0x1999999999999a * 2 ^ 4
+/-- `> 0.5 = 2^57 / 2^58` -/
+def machGt05 (value : Nat) : Bool := machNum value > 2 ^ 57
+
+/-- the integer thresholds agree with the float comparisons on one code -/
+def agrees (value : Nat) : Bool :=
+  machEq0 value == Bds60.machEq0 value && machGt1 value == Bds60.machGt1 value &&
+  machLt04 value == Bds60.machLt04 value && machGt05 value == Bds60.machGt05 value
+
+/-- machine-checked: on all 1024 Mach codes the integer thresholds used by `mach` are the
+    IEEE-754 comparisons (complete kernel enumeration) -/
+theorem thresholds_agree : ∀ value, value < 2 ^ 10 → agrees value = true :=
+  forall_lt_of_allBits agrees 10 (by decide +kernel)
+
+end F64
 
 end Rs1090.Model.Bds60
